@@ -13,6 +13,13 @@
 #ifndef VX_H
 #define VX_H
 #define _GNU_SOURCE
+/* harness functions that touch the harness's own observation variables from several scheduled threads: their accesses are
+ * not the code under test and are hidden from ThreadSanitizer (sched-tsan build); calls they make stay instrumented */
+#if defined(__clang__)
+#define VX_HARNESS_SHARED __attribute__((no_sanitize("thread")))
+#else
+#define VX_HARNESS_SHARED
+#endif
 #include <stdio.h>
 #include <stdlib.h>
 #include <string.h>
@@ -367,6 +374,7 @@ static void vx_crash_reason(int w, char* out, size_t cap) {
             /* "AddressSanitizer: heap-buffer-overflow /path/file.c:123:5 in func" -> keep kind + func */
             char kind[120] = "", func[120] = ""; char* in = strstr(s, " in ");
             sscanf(s, "%*[^:]: %119s", kind);
+            if (strstr(s, "ThreadSanitizer: data race")) snprintf(kind, sizeof kind, "data-race");
             if (in) sscanf(in + 4, "%119s", func);
             snprintf(out, cap, "%s@%s", kind, func[0] ? func : "?");
             fclose(f); return;
